@@ -33,7 +33,8 @@ REQUIRED = (['handle:' + h for h in HANDLES] + ['fn:todb', 'fn:appenddb', 'commi
             'long-load', 'source-read-through-the-same-connection', 'pending-load-read-back-through-the-same-connection', 'roundtrip-typed-cells', 'quoted-identifiers', 'sql-statements-traced', 'source-fields-in-another-order-than-the-table-columns', 'transaction-larger-than-the-page-cache', 'database-file-name-with-uri-characters', 'schema-qualified', 'fromdb-handle-kinds', 'fromdb-two-readers'] + ['exc:' + e for e in EXCS])
 EXHAUSTIVE = {'quick': False, 'thorough': False}   # the enumerated families are complete within their bounds, but a seeded random family is judged too
 
-CELLS = [None, 0, 1, -5, 2 ** 40, 1.5, -0.25, '', 'a', "it's", 'say "hi"', 'é€漢', 'x;y', b'', b'\x00\xff', 'NULL', ' lead']
+CELLS = [None, 0, 1, -5, 2 ** 40, 1.5, -0.25, '', 'a', "it's", 'say "hi"', 'é€漢', 'x;y', b'', b'\x00\xff', 'NULL', ' lead',
+         '2020-01-01', '2020-01-01 12:30:00', 'unknown']      # text that a column declared DATE / TIMESTAMP still returns as the text it is
 
 
 DBNAMES = ['c17-%d.db', 'c17-%d.db', 'c17 %d #1?mode=rw&x=%%31.db', 'c17-%d%%41%%2f.db', "c17-%d 'q' é.db"]
@@ -86,7 +87,9 @@ def cases(ctx):
                'new': n, 'fail': rng.choice([None, None, None] + list(range(0, n + 2))), 'flavour': 'typed', 'exc': rng.choice(EXCS),
                'schema': rng.choice([None, None, 'aux']),
                'cells': [[rng.choice(CELLS), rng.choice(CELLS)] for _ in range(n)],
-               'table': rng.choice(['t', 'my table', 'we"ird', 'select', 'T-1']), 'fields': rng.choice([['a', 'b'], ['a b', 'c"d'], ['select', 'from'], ['é', 'ü']])}
+               'table': rng.choice(['t', 'my table', 'we"ird', 'select', 'T-1', 'st.ev', 'main.t']), 'fields': rng.choice([['a', 'b'], ['a b', 'c"d'], ['select', 'from'], ['é', 'ü']]),
+               # declared column types (BLOB: no affinity; DATE, TIMESTAMP: numeric affinity, which leaves text that is not a numeral, blobs and numbers as they are; a TEXT column would turn numbers into text)
+               'decl': rng.choice([None, None, ['DATE', 'TIMESTAMP'], ['TIMESTAMP', 'DATE'], ['BLOB', 'DATE'], ['BLOB', 'TIMESTAMP']])}
 
 
 def _q(s):
@@ -151,11 +154,17 @@ def judge(case, ctx):
     for suffix in ('', '-journal', '-wal', '-shm'):
         if os.path.exists(path + suffix):
             os.remove(path + suffix)
+    decl = case.get('decl') or ['', '']
+    if case.get('decl'):
+        ctx.seen('columns-with-declared-types')
+    if '.' in tbl:
+        ctx.seen('table-name-with-a-dot')
+    cols = ', '.join((_q(f) + ' ' + d).strip() for f, d in zip(fields, decl))
     setup = sqlite3.connect(path)
-    setup.execute('CREATE TABLE %s (%s)' % (_q(tbl), ', '.join(_q(f) for f in fields)))
+    setup.execute('CREATE TABLE %s (%s)' % (_q(tbl), cols))
     setup.executemany('INSERT INTO %s VALUES (?, ?)' % _q(tbl), prior)
     if case.get('via_fromdb'):
-        setup.execute('CREATE TABLE "src" (%s)' % ', '.join(_q(f) for f in fields))
+        setup.execute('CREATE TABLE "src" (%s)' % cols)
         setup.executemany('INSERT INTO "src" VALUES (?, ?)', new)
     setup.commit()
     setup.close()
@@ -169,7 +178,7 @@ def judge(case, ctx):
     if schema:
         ctx.seen('schema-qualified')
         s2 = sqlite3.connect(aux_path)
-        s2.execute('CREATE TABLE %s (%s)' % (_q(tbl), ', '.join(_q(f) for f in fields)))
+        s2.execute('CREATE TABLE %s (%s)' % (_q(tbl), cols))
         s2.executemany('INSERT INTO %s VALUES (?, ?)' % _q(tbl), prior)
         s2.commit()
         s2.close()
